@@ -131,6 +131,79 @@ def opSnpDecode (j : Json) : Except String Json := do
     | some ts => pure <| Json.mkObj [("decoded",
         Json.arr (ts.map (fun (k, n, t) => Json.arr #[jB k, jB n, jB t])).toArray)]
 
+/-! #### C20 toposort -/
+
+def opToposort (j : Json) : Except String Json := do
+  let log ← (← getArr j "log").toList.mapM (fun r => do
+    let id ← getN r "id"
+    let ps ← (← getArr r "parents").toList.mapM (fun x => x.getNat?)
+    pure (Rev.mk id ps))
+  let out := toposort log
+  pure <| Json.mkObj [("order", Json.arr (out.map (fun r => Json.num (JsonNumber.fromNat r.id))).toArray)]
+
+/-! #### C16 time -/
+
+def jErr (e : ErrKind) : Json :=
+  Json.str (match e with
+    | .validation => "validation" | .valueError => "valueError" | .typeError => "typeError"
+    | .assertion => "assertion" | .other => "other")
+
+def jInt (i : Int) : Json := Json.num (JsonNumber.fromInt i)
+
+def opOffsetTable (j : Json) : Except String Json := do
+  let lo ← getI j "lo"
+  let hi ← getI j "hi"
+  let n := (hi - lo + 1).toNat
+  let rows := (List.range n).flatMap (fun (k : Nat) =>
+    let o : Int := lo + (k : Int)
+    [false, true].map (fun f =>
+      let b := formatOffset o f
+      let p := match parseOffsetBytes b with | .ok v => jInt v | .error e => jErr e
+      let c := match fromNumericOffset o f with | .ok _ => Json.bool true | .error e => jErr e
+      Json.arr #[jB b, p, c]))
+  pure <| Json.mkObj [("rows", Json.arr rows.toArray)]
+
+def opOffsetParse (j : Json) : Except String Json := do
+  let b ← getB j "bytes"
+  match parseOffsetBytes b with
+  | .ok v => pure <| Json.mkObj [("ok", jInt v)]
+  | .error e => pure <| Json.mkObj [("err", jErr e)]
+
+def opFmtDate (j : Json) : Except String Json := do
+  let s ← getI j "s"
+  let us ← getN j "us"
+  let t := formatDate s us
+  let back := match parseDate t with
+    | some (a, b) => Json.arr #[jInt a, Json.num (JsonNumber.fromNat b)]
+    | none => Json.null
+  pure <| Json.mkObj [("text", jB t), ("back", back)]
+
+def opMkTs (j : Json) : Except String Json := do
+  let s ← getI j "s"
+  let us ← getI j "us"
+  match mkTimestamp s us with
+  | .ok _ => pure <| Json.mkObj [("ok", Json.bool true)]
+  | .error e => pure <| Json.mkObj [("err", jErr e)]
+
+def opFromDt (j : Json) : Except String Json := do
+  let u ← getI j "u"
+  let off ← getI j "off"
+  let (s, us, o) := fromDatetime ⟨u, off⟩
+  let ob := match fromNumericOffset o false with | .ok b => jB b | .error e => jErr e
+  let back := toDatetime s us o
+  pure <| Json.mkObj [("s", jInt s), ("us", jInt us), ("off", jInt o), ("offset_bytes", ob),
+    ("back", Json.arr #[jInt back.utcMicros, jInt back.offMin])]
+
+def opToDt (j : Json) : Except String Json := do
+  let s ← getI j "s"
+  let us ← getI j "us"
+  let b ← getB j "offset_bytes"
+  match parseOffsetBytes b with
+  | .error e => pure <| Json.mkObj [("err", jErr e)]
+  | .ok o =>
+    let d := toDatetime s us o
+    pure <| Json.mkObj [("u", jInt d.utcMicros), ("off", jInt d.offMin), ("minutes", jInt o)]
+
 def dispatch (op : String) (j : Json) : Except String Json :=
   match op with
   | "ping" => pure (Json.mkObj [("pong", Json.bool true)])
@@ -138,6 +211,13 @@ def dispatch (op : String) (j : Json) : Except String Json :=
   | "tree_decode" => opTreeDecode j
   | "snp_manifest" => opSnpManifest j
   | "snp_decode" => opSnpDecode j
+  | "toposort" => opToposort j
+  | "offset_table" => opOffsetTable j
+  | "offset_parse" => opOffsetParse j
+  | "fmt_date" => opFmtDate j
+  | "mk_ts" => opMkTs j
+  | "from_dt" => opFromDt j
+  | "to_dt" => opToDt j
   | _ => throw s!"unknown op {op}"
 
 def handleLine (line : String) : String :=
